@@ -37,6 +37,22 @@ def shard_paths(dataset, split: str) -> list[Path]:
     return [dataset.path / s.file_infos[0].file_path for s in dataset.shard_info_iterator(split)]
 
 
+def read_with_stall(dataset, iface, split, stall: float, **kwargs):
+    """Like readers.read, but the consumer stalls once (after the first element) for `stall` seconds while the
+    pipeline's workers run dry."""
+    import time  # pylint: disable=import-outside-toplevel
+    iterator, closer = readers.open_stream(dataset, iface, split, **kwargs)
+    out = []
+    try:
+        for k, element in enumerate(iterator):
+            out.append(element)
+            if k == 0:
+                time.sleep(stall)
+        return out
+    finally:
+        closer()
+
+
 def run_pass(dataset, fmt: str, iface: str, split: str, work: Path, *, shuffle: int, par: int | None,
              process: bool, perturb: dict, repeat: bool = False, limit: int | None = None, extra=None):
     """One monitored pass.  perturb = {"gate": policy, "seed": n} | {"delay": seed} | {}.
@@ -59,6 +75,10 @@ def run_pass(dataset, fmt: str, iface: str, split: str, work: Path, *, shuffle: 
                                     process_record=process_record, limit=limit, **kwargs)
         observation = {"gated": 1, "release_order": gate.release_order(), "max_ready": gate.max_ready(),
                        "out_of_order_releases": gate.out_of_order_releases(), "shards": len(paths)}
+    elif "stall" in perturb:
+        examples = read_with_stall(dataset, iface, split, perturb["stall"], shuffle=shuffle, repeat=repeat,
+                                   process_record=process_record, **kwargs)
+        observation = {"gated": 0, "stalled": 1}
     else:
         with delays.inject(perturb.get("delay", perturb.get("seed"))) as stats:
             examples = readers.read(dataset, iface, split, shuffle=shuffle, repeat=repeat,
